@@ -191,3 +191,106 @@ accumulate_func = Contract(
 
 from pyvc.bounded import bounded_check
 zcross.extra_checks = [bounded_check("bounded.c20", "analysis-tools-symrun", ["C20"])]
+
+
+# ---------------------------------------------------------------------------
+# maverage.recursive / maverage.fir: transfer functions at a generic evaluation point u = z**-1, over the ZFilter
+# operator contracts of C05 (as the C13 designs).  UPOW(k) = u**k, GS(n) = sum_{i<n} u**i (specification functions).
+#   fir(size)       : H(u) = GS(size) / size         (by C04's difference equation: the mean of the last `size` samples)
+#   recursive(size) : H(u) = (1 - u**size) / (size * (1 - u))
+#   lemma (induction): (1 - u) * GS(n) == 1 - u**n, hence the two agree (stated cross-multiplied: no division by 1 - u).
+import ast as _ast
+from contracts import c13 as _c13
+from contracts.c05 import NUM as _NUM, DEN as _DEN, _is_filt
+from pyvc import sym as _sym
+from pyvc.sym import UFn as _UFn
+
+_GS = z3.Function("GS", _sym.INT, _sym.REAL)
+_MA_AX = [("def:u**0", "UPOW(0) == 1"), ("def:u**(k+1)", "forall(lambda k: implies(k >= 0, UPOW(k + 1) == UPOW(k) * U))"),
+          ("def:GS(0)", "GS(0) == 0"), ("def:GS(n+1)", "forall(lambda n: implies(n >= 0, GS(n + 1) == GS(n) + UPOW(n)))")]
+
+
+def _fir_genexpr(m, node):
+    return ("filter-terms", node, dict(m.locals))
+
+
+def _val(m, x):
+    """(numerator value, denominator value) of a filter or a number"""
+    if _is_filt(x):
+        return m.heap[(x.id, "numpoly")].v, m.heap[(x.id, "denpoly")].v
+    return _sym.to_real(x), _sym.to_real(1)
+
+
+def _fir_inv(m, acc, j, size):
+    n, d = _val(m, acc)
+    return z3.And(d != 0, n * _sym.to_real(size) == d * _GS(j))
+
+
+def _sum_model(m, args, kwargs):
+    """sum(<generator of filters>) = left fold with + starting at 0 (library semantics of sum), proved by induction over the
+    number of terms with the invariant acc == GS(j) / size; each + goes through the ZFilter operator contracts"""
+    a = args[0]
+    if not (isinstance(a, tuple) and a and a[0] == "filter-terms") or len(args) != 1 or kwargs:
+        raise _sym.Unsupported("sum() of something else")
+    _, node, env = a
+    g = node.generators[0]
+    if len(node.generators) != 1 or g.ifs or not isinstance(g.target, _ast.Name):
+        raise _sym.Unsupported("sum() over this generator expression")
+    if not (isinstance(g.iter, _ast.Call) and isinstance(g.iter.func, _ast.Name) and g.iter.func.id in ("xrange", "range") and len(g.iter.args) == 1):
+        raise _sym.Unsupported("sum() over something that is not xrange(n)")
+    cnt = _sym.to_z3num(m.eval(g.iter.args[0]))
+    size = m.params0["size"]
+    m.oblige("sum/base/acc-is-GS(0)/size", _fir_inv(m, 0, z3.IntVal(0), size))
+    # step: an arbitrary iteration j
+    j = m.fresh("sum_j", _sym.INT)
+    nacc, dacc = m.fresh("sum_acc_num", _sym.REAL), m.fresh("sum_acc_den", _sym.REAL)
+    saved_pc = list(m.pc)
+    # the step needs one instance of each recurrence and no other quantified fact (nonlinear reals + quantifiers do not mix well)
+    m.pc = [h for h in m.pc if not z3.is_quantifier(h)]
+    m.assume(z3.And(j >= 0, j < cnt))
+    m.assume(_GS(j + 1) == _GS(j) + _c13.UPOW(j))
+    acc = m.new_obj("ZFilter", {"numpoly": _c13.PV(nacc), "denpoly": _c13.PV(dacc)})
+    m.assume(_fir_inv(m, acc, j, size))
+    saved_locals = m.locals
+    m.locals = dict(saved_locals)
+    m.locals[g.target.id] = j
+    term = m.eval(node.elt)
+    m.locals = saved_locals
+    acc2 = _c13._binop(m, _ast.Add(), acc, term)
+    m.oblige("sum/step/acc-is-GS(j+1)/size", _fir_inv(m, acc2, j + 1, size))
+    m.pc = saved_pc
+    # after the fold: some accumulator satisfying the invariant at j == count (0 when there was no term)
+    if m.branch(cnt <= 0):
+        return 0
+    nres, dres = m.fresh("sum_num", _sym.REAL), m.fresh("sum_den", _sym.REAL)
+    res = m.new_obj("ZFilter", {"numpoly": _c13.PV(nres), "denpoly": _c13.PV(dres)})
+    m.assume(_fir_inv(m, res, cnt, size))
+    return res
+
+
+_sum_model._pyvc_callee = True
+
+
+def _ma_design(name, qual, ensures, stated, lemmas=(), theorems=()):
+    c = _c13._design(name, qual, {"size>=1": _c13._generic(Mode(params=dict(size=Int), requires=["size >= 1"], ensures=ensures))}, stated,
+                     extra_env={"GS": _UFn(_GS, 1)})
+    c.props = ["C20"]
+    c.axioms = c.axioms + [((l, t)) for l, t in _MA_AX]
+    c.replay = "oracles.bounded_adapter:c20"
+    c.lemmas = list(lemmas)
+    c.theorems = [(l, t) for l, t in theorems]
+    c.genexpr_hook = _fir_genexpr
+    c.globs = dict(c.globs, sum=_sum_model)
+    c.assumptions = c.assumptions + ["sum(generator) is the left fold with + from 0", "UPOW(k) = u**k and GS(n) = sum_{i<n} u**i are specification functions defined by the listed recurrences"]
+    return c
+
+
+maverage_recursive = _ma_design(
+    "maverage.recursive", "audiolazy/lazy_analysis.py::maverage#2",
+    [("S:H=(1-z^-size)/(size*(1-z^-1))", "NUM(result) * size * (1 - U) == DEN(result) * (1 - UPOW(size)) and DEN(result) != 0")],
+    ["maverage.recursive is (1/size)(1 - z^-size)/(1 - z^-1)"])
+maverage_fir = _ma_design(
+    "maverage.fir", "audiolazy/lazy_analysis.py::maverage#3",
+    [("S:H=(1/size)*sum_{i<size}z^-i", "NUM(result) * size == DEN(result) * GS(size) and DEN(result) != 0")],
+    ["maverage.fir is the FIR filter with `size` coefficients 1/size: by C04's difference equation, the mean of the last size samples (zero history)"],
+    lemmas=[Lemma("S:fir-and-recursive-agree:(1-u)*GS(n)==1-u**n(the-two-transfer-functions-cross-multiplied)", "n", "(1 - U) * GS(n) == 1 - UPOW(n)")])
